@@ -119,6 +119,12 @@ def enumerate_cases(tier, shard=0, nshards=1):
             k += 1
             if k % nshards == shard:
                 yield dict(cfg, ops=prefix + [op], inject=[], gen='bfs')
+    # the same histories in a process whose descriptor 0 is free (the lock file is opened as descriptor 0)
+    for cfg in configs():
+        for prefix, op in bfs(cfg, min(depth, 3)):
+            k += 1
+            if k % nshards == shard:
+                yield dict(cfg, ops=prefix + [op], inject=[], gen='bfs-fd0', fd0_free=True)
     # fault enumeration
     for cfg in configs():
         for prefix, op in bfs(cfg, fdepth):
@@ -188,9 +194,9 @@ def machines(tier):
                 self.m = None
 
             @initialize(ra=st.booleans(), rb=st.booleans(), dt=st.sampled_from([-1, -1, 0.1]),
-                        inject=st.lists(st.integers(0, 40), max_size=2))
-            def setup(self, ra, rb, dt, inject):
-                self.case = {'reentrant': {'A': ra, 'B': rb}, 'default_timeout': dt, 'ops': [],
+                        inject=st.lists(st.integers(0, 40), max_size=2), fd0=st.sampled_from([False, False, False, True]))
+            def setup(self, ra, rb, dt, inject, fd0):
+                self.case = {'reentrant': {'A': ra, 'B': rb}, 'default_timeout': dt, 'ops': [], 'fd0_free': fd0,
                              'inject': inject if inject and inject[0] % 3 == 0 else [], 'gen': 'machine'}
                 self.m = H.Model(self.case['reentrant'], dt)
 
